@@ -76,3 +76,14 @@ Theorem C02_poll_branch_is_the_code :
   forall idx w, pn_branch_code idx w = Some (pn_branch_model idx w).
 Proof. exact pn_branch_is_the_code. Qed.
 Print Assumptions C02_poll_branch_is_the_code.
+
+(* iv_fd_epoll_unregister_fd flushes the pending kernel-interest change iff the descriptor is on the notify list *)
+From Ivv Require Import Gen.LeafCoreEvent Gen.LeafCoreLists.
+Theorem C02_epoll_unregister_fd_is_the_code :
+  forall s k,
+  match core_unreg_flush (b2z (negb (mem_z k (notify s)))) with
+  | Some flush => Some (if flush then epoll_flush_one s k else R s)
+  | None => None
+  end = Some (epoll_unregister_fd s k).
+Proof. exact epoll_unregister_fd_is_the_code. Qed.
+Print Assumptions C02_epoll_unregister_fd_is_the_code.
